@@ -63,3 +63,26 @@ impl LuaIndex for LuaGlobalIndex {
         self.global_decl.clear();
     }
 }
+
+#[cfg(feature = "verif-hooks")]
+impl LuaGlobalIndex {
+    pub(crate) fn verif_sizes(&self) -> Vec<(&'static str, usize)> {
+        vec![
+            ("global_decl", self.global_decl.len()),
+            (
+                "global_decl.ids",
+                self.global_decl.values().map(|v| v.len()).sum(),
+            ),
+        ]
+    }
+
+    pub(crate) fn verif_file_refs(&self, file_id: FileId) -> Vec<(&'static str, usize)> {
+        vec![(
+            "global_decl.ids",
+            self.global_decl
+                .values()
+                .map(|v| v.iter().filter(|d| d.file_id == file_id).count())
+                .sum(),
+        )]
+    }
+}
